@@ -350,8 +350,17 @@ def rule_e(res: Results, idx: Index) -> None:
     key = f"{rel}::_build_body_graph::index-offset"
     g = cfg_of(body_fn.node)
     dub = defuse(body_fn.node)
-    guards = [st for st in walk_no_nested(body_fn.node) if isinstance(st, ast.If) and isinstance(st.test, ast.Compare) and names_in(st.test) == {"lower"} and isinstance(st.test.ops[0], ast.NotEq)
-              and isinstance(st.test.comparators[0], ast.Constant) and st.test.comparators[0].value == 0]
+    def _is_lower_nonzero(t: ast.AST) -> bool:
+        if isinstance(t, ast.Name) and t.id == "lower":
+            return True  # truthiness
+        if isinstance(t, ast.Compare) and names_in(t) == {"lower"} and len(t.ops) == 1 and isinstance(t.comparators[0], ast.Constant) and t.comparators[0].value == 0:
+            return isinstance(t.ops[0], (ast.NotEq, ast.Gt))
+        if isinstance(t, ast.Compare) and names_in(t) == {"lower"} and len(t.ops) == 1 and isinstance(t.left, ast.Constant) and t.left.value == 0:
+            return isinstance(t.ops[0], (ast.NotEq, ast.Lt))
+        return False
+    guards = [st for st in walk_no_nested(body_fn.node) if isinstance(st, ast.If) and _is_lower_nonzero(st.test)]
+    # an unconditional offset (Add always emitted) is fine as well
+    unconditional = False
     binds_iter = [c for c in walk_no_nested(body_fn.node) if isinstance(c, ast.Call) and (call_name(c) or "").endswith("bind_value_for_var") and c.args and "iter_var" in names_in(c.args[0])]
     adds = [st for st in walk_no_nested(body_fn.node) if isinstance(st, ast.Assign) and isinstance(st.value, ast.Call) and (call_name(st.value) or "").endswith(".Add")]
     good_add = None
@@ -362,7 +371,14 @@ def rule_e(res: Results, idx: Index) -> None:
             t1 = dub.closure(names_in(args[1])) | names_in(args[1])
             if ({"iter_input"} & (t0 | t1)) and ("lower" in (t0 | t1)):
                 good_add = a
-    if not guards or not binds_iter or good_add is None:
+    if good_add is not None and binds_iter and not any(isinstance(p_, ast.If) for p_ in parents(good_add) if p_ is not body_fn.node):
+        unconditional = True
+    if unconditional:
+        tgt = good_add.targets[0].id if isinstance(good_add.targets[0], ast.Name) else None
+        bound = binds_iter[0].args[1] if len(binds_iter[0].args) > 1 else None
+        flows = tgt is not None and bound is not None and tgt in (dub.closure(names_in(bound)) | names_in(bound))
+        res.add("R-C06e", "OK" if flows else "VIOLATION", f"{rel}:{good_add.lineno}", key, "iteration + lower is always computed and bound to the body's index variable" if flows else "iteration + lower is computed but is not what the body's index variable is bound to", body_fn.qualname)
+    elif not guards or not binds_iter or good_add is None:
         res.violation("R-C06e", f"{rel}:{body_fn.node.lineno}", key, "the body graph does not add `lower` to the Loop iteration number under `if lower != 0` before binding the body's index variable: fori_loop(lower>0, …) bodies see indices starting at 0", body_fn.qualname)
     else:
         t_edges = [(n, "T") for gd in guards for n in g.nodes_of(gd)]
